@@ -56,3 +56,17 @@ fn c20_known_abs_div_min_overflow() {
         let _ = eval_div(&a);
     }
 }
+
+//@ props=C20 kind=proof
+/// DIV with unit divisors is exact on every i64: DIV(a, 1) == a and DIV(a, -1) == -a (a != i64::MIN) — the
+/// quotient is computed in integer arithmetic, not through a lossy float round trip
+#[kani::proof]
+#[kani::unwind(4)]
+fn c20_div_function_unit_divisors() {
+    let a: i64 = kani::any();
+    let one = [Some(Value::Int(a)), Some(Value::Int(1))];
+    assert!(matches!(eval_div(&one), Some(Value::Int(q)) if q == a));
+    kani::assume(a != i64::MIN);
+    let neg = [Some(Value::Int(a)), Some(Value::Int(-1))];
+    assert!(matches!(eval_div(&neg), Some(Value::Int(q)) if q == -a));
+}
